@@ -672,7 +672,10 @@ const (
 	compressorTypeKey = "compressorTypeKey" // undo/base/undo.go
 )
 
-func runParser(t *trace.T, sc scenario, r *rand.Rand) {
+// runParser encodes the scenario's log (what phase one does) and returns the rest - decompress, decode,
+// compare (what a rollback does) - as a continuation: the caller lets several branches encode before any of
+// them is read back, as happens whenever branches of different transactions are in flight together.
+func runParser(t *trace.T, sc scenario, r *rand.Rand) (rollback func()) {
 	sig := sc.sig()
 	vals := classValues(sc, r)
 	if len(vals) == 0 {
@@ -681,7 +684,6 @@ func runParser(t *trace.T, sc scenario, r *rand.Rand) {
 	orig := buildLog(sc, vals, r)
 	t.Add("Start", "leg", "parser", "ser", sc.Ser, "comp", sc.Comp, "thr", sc.Thr, "jt", sc.Jt, "kind", sc.Kind, "cls", sc.Cls,
 		"key", sc.Key, "stmt", sc.Stmt, "nvals", len(vals), "sig", sig)
-	defer t.Add("End", "sig", sig)
 
 	// ---- flush: serializeBranchUndoLog
 	var p parser.UndoLogParser
@@ -695,8 +697,17 @@ func runParser(t *trace.T, sc scenario, r *rand.Rand) {
 	})
 	t.Add("Encode", "ser", sc.Ser, "res", res, "detail", detail, "sig", sig)
 	if res != "ok" {
-		return
+		t.Add("End", "sig", sig)
+		return nil
 	}
+	return func() {
+		defer t.Add("End", "sig", sig)
+		runParserRest(t, sc, orig, info, sig)
+	}
+}
+
+func runParserRest(t *trace.T, sc scenario, orig *undo.BranchUndoLog, info []byte, sig string) {
+	var res, detail string
 	// the compression the context announces (FlushUndoLog records the configured type)
 	cmp := compressor.CompressorType(sc.Comp).GetCompressor()
 	applied := compName(cmp)
@@ -1216,6 +1227,13 @@ func main() {
 	aborted := 0
 	abortWhy := map[string]int{}
 	idx := 0
+	var pending []func()
+	flush := func() {
+		for _, f := range pending {
+			f()
+		}
+		pending = nil
+	}
 	for _, raw := range raws {
 		i := idx
 		idx++
@@ -1234,10 +1252,21 @@ func main() {
 				abortWhy[sc.Jt+"/"+sc.Kind+"/"+sc.Cls]++
 			}
 		} else {
-			runParser(t, sc, r)
+			// a window of branches is encoded before the first of them is read back
+			tt := t
+			if cont := runParser(t, sc, r); cont != nil {
+				pending = append(pending, func() { cont(); tt.Close() })
+			} else {
+				pending = append(pending, tt.Close)
+			}
+			if len(pending) >= 4 {
+				flush()
+			}
+			continue
 		}
 		t.Close()
 	}
+	flush()
 	if o.Mode == "parser" {
 		for _, name := range []string{"xml", "", "JSON", "fst"} {
 			i := idx
